@@ -3,6 +3,7 @@ import IastModel.Spec.Coverage
 import IastModel.Lemmas.Monad
 import IastModel.Lemmas.CovBlock
 import IastModel.Lemmas.CovProgram
+import IastModel.Lemmas.KeepArrow
 import IastModel.Lemmas.Master
 /-
   C04 — every enabled operation in blocks is instrumented.  Local coverage lemmas: the `+` transform
@@ -160,6 +161,79 @@ theorem every_block_statement_is_instrumented_partial (cfg : Config) (fuel : Nat
     · exact Nat.le_trans this (cq_insertPrologue_le _ _ _)
     · exact this
 
+/-! ### arrow functions written without braces -/
+
+/-- how `1 ≤ va cfg A n` ("the arrow function `A` sits at a position of `n` the operation visitor reaches")
+    is built: an expression-bodied arrow function is reached in itself, and in every node that has it under
+    a visited child (`visitedKids`: not the operand of `delete`, not a template with a literal substitution,
+    not an optional chain, not a nested block, not another arrow function) -/
+theorem arrow_reached_in_itself (cfg : Config) (ps : List Node) (e : Node) (at' : String) (sp : Span)
+    (he : isBlockNode e = false) : 1 ≤ va cfg (.arrow ps e at' sp) (.arrow ps e at' sp) := by
+  rw [va_eq, beq_self]; simp [isExprArrow, he]
+
+theorem arrow_reached_in_parent (cfg : Config) (A n k : Node) (hk : k ∈ visitedKids cfg n) (h : 1 ≤ va cfg A k) :
+    1 ≤ va cfg A n := by
+  rw [va_eq]
+  have : va cfg A k ≤ vaL cfg A (visitedKids cfg n) := by
+    generalize visitedKids cfg n = l at hk
+    induction l with
+    | nil => cases hk
+    | cons x xs ih =>
+      simp only [vaL_cons]
+      cases hk with
+      | head => omega
+      | tail _ h' => have := ih h'; omega
+  omega
+
+theorem arrow_reached_in_statements (cfg : Config) (A k : Node) (ss : List Node) (hk : k ∈ ss) (h : 1 ≤ va cfg A k) :
+    1 ≤ vaL cfg A ss := by
+  induction ss with
+  | nil => cases hk
+  | cons x xs ih =>
+    simp only [vaL_cons]
+    cases hk with
+    | head => omega
+    | tail _ h' => have := ih h'; omega
+
+/-- what is required in `{ return e }` is what is required in `e` -/
+theorem required_in_wrapped_body (cfg : Config) (d : String) (sp0 : Span) (ps : List Node) (e : Node) (at' : String) (sp : Span) :
+    RL cfg d sp0 (stmtsOf (pseudo (.arrow ps e at' sp))) = R cfg d sp0 e := by
+  simp only [pseudo, stmtsOf, returnStmt, RL_cons, RL_nil, Nat.add_zero]
+  rw [R_eq]
+  simp [reqOwn, visitedKids, Node.kids]
+
+/-- **C04 for the bodies of arrow functions written without braces** (`x => x + y`, `v => v.trim()`), PARTIAL in
+    the same way as `every_block_statement_is_instrumented_partial`.  For every block statement `B1` of the
+    program and every expression-bodied arrow function `A = (ps) => e` at a position of one of `B1`'s
+    statements that the operation visitor reaches (so: not in the operand of `delete`, not inside a template
+    literal that has a literal substitution, not inside an optional chain or another arrow function — the
+    documented exclusions, and the ones this theorem leaves to the oracle), unless the rewrite is refused
+    or the model runs out of fuel: the body is wrapped into a block, that block is entered, and the output
+    has a hook call of the expected name and span for every operation required in `e`. -/
+theorem every_reached_arrow_body_is_instrumented_partial (cfg : Config) (fuel : Nat) (p : Node)
+    (h0 : ns p = 0) (ht : targetsOk p = true) (hnb : isBlockNode p = false)
+    (hnc : (transformProgram cfg fuel p).status ≠ .cancelled)
+    (hfo : (transformProgram cfg fuel p).fuelOut = false)
+    (B1 : Node) (hB : 1 ≤ cb B1 p) (ps : List Node) (e : Node) (at' : String) (asp : Span)
+    (hA : 1 ≤ vaL cfg (.arrow ps e at' asp) (stmtsOf B1)) (d : String) (sp0 : Span) :
+    R cfg d sp0 e ≤ cq (qAt d sp0) (transformProgram cfg fuel p).out := by
+  rw [← required_in_wrapped_body cfg d sp0 ps e at' asp]
+  unfold transformProgram at hnc hfo ⊢
+  simp only [StateT.run] at hnc hfo ⊢
+  by_cases hr : hasReserved (tempPrefix cfg.localVarPrefix) p = true
+  · exact absurd (programVisit_reserved cfg _ fuel p {} hr) hnc
+  · simp only [Bool.not_eq_true] at hr
+    simp only [programVisit_eq cfg _ fuel p {} hr] at hnc hfo ⊢
+    have hs0 : StOk ({} : St) := by intro h; cases h
+    have hb0 : bad p = 0 := (bad_zero_iff p).mpr ht
+    have hg : goodW (okCfg cfg) true p = true := good_of_ns0 (okCfg cfg) true p h0 hb0
+    have key := blockVisit_reach_arrow (okCfg cfg) cfg (cfgOk_dsts cfg) d sp0 B1 (.arrow ps e at' asp) fuel hA (fuel + 1) p {} hs0 hg
+    rw [blockVisit_generic cfg fuel fuel p hnb] at key
+    have := key hnc hfo hB
+    split
+    · exact Nat.le_trans this (cq_insertPrologue_le _ _ _)
+    · exact this
+
 /-! non-vacuity: a function declaration whose body calls `g(function () { c + d })` — the inner function
     body is a block statement of the program, two blocks and one call argument deep -/
 section Example
@@ -186,6 +260,15 @@ example : 1 ≤ cb inner prog := by
   apply block_occurs_in_parent _ _ fe (by simp [kids])
   apply block_occurs_in_parent _ _ inner (by simp [fe, kids])
   exact block_occurs_in_itself _ _
+/-- `function(){ return g(x => x + y) }`: the arrow is reached in the function body's `return` statement -/
+private def arrowA : Node := .arrow [.ident (.user "x") sp1] (.bin "+" (.ident (.user "x") sp1) (.ident (.user "y") sp1) sp1) "" sp1
+private def retA : Node := .other "ReturnStatement" sp1 ["argument"] [.call (.ident (.user "g") sp1) [.arg none arrowA] sp1]
+example (cfg : Config) : 1 ≤ vaL cfg arrowA (stmtsOf (.block [retA] sp1)) := by
+  apply arrow_reached_in_statements cfg _ retA _ (by simp [stmtsOf])
+  apply arrow_reached_in_parent cfg _ _ (.call (.ident (.user "g") sp1) [.arg none arrowA] sp1) (by simp [retA, visitedKids, kids])
+  apply arrow_reached_in_parent cfg _ _ (.arg none arrowA) (by simp [visitedKids, kids])
+  apply arrow_reached_in_parent cfg _ _ arrowA (by simp [visitedKids, kids])
+  exact arrow_reached_in_itself cfg _ _ _ _ rfl
 end Example
 
 end IastModel.C04
